@@ -397,7 +397,7 @@ def batches(ctx):
     if getattr(ctx, "replay_case", None) is not None:
         cases, n_small = [ctx.replay_case], 0
     elif ctx.quick():
-        cases, n_small = c13.make_cases(ctx, (3, 3), n_mid=25, cap_mid=20, n_rand=150, tag="c14")
+        cases, n_small = c13.make_cases(ctx, (3, 3), n_mid=45, cap_mid=20, n_rand=300, tag="c14")
     else:
         cases, n_small = c13.make_cases(ctx, (3, 3), n_mid=300, cap_mid=40, n_rand=2500, tag="c14")
     if getattr(ctx, "replay_case", None) is None:
